@@ -527,7 +527,11 @@ def main(cli_argv=None, return_args=False):
             require_file_existent(_parser, filename, name=arg_name)
         sync_properties(**args_dict)
     elif command == "gen":
-        if path.isfile(args.output_filename) and args.phase == 0:
+        if path.isfile(args.output_filename) and not (
+            # a later phase updates the file phase 0 wrote; only the SQLalchemy kinds have later phases
+            args.phase > 0
+            and args.emit_name.startswith("sqlalchemy")
+        ):
             raise IOError(
                 "File exists and this is a destructive operation. Delete/move {output_filename!r} then"
                 " rerun.".format(output_filename=args.output_filename)
